@@ -53,6 +53,15 @@ func c07SearchCoq(resp c07Resp, over bool) string {
 }
 
 func c07SearchCase(p *c07Prog, class string, kfs func(*c07Prog) []string) Case {
+	before := c07NoAnswer
+	c := c07SearchCaseInner(p, class, kfs)
+	if len(c.KF) > 0 {
+		c07NoAnswer = before // a known hang does not count towards giving up
+	}
+	return c
+}
+
+func c07SearchCaseInner(p *c07Prog, class string, kfs func(*c07Prog) []string) Case {
 	resp, over := c07Compile(p.Files, p.Root, "compile")
 	c := Case{Class: class, Coq: c07SearchCoq(resp, over)}
 	c.Input = map[string]any{"root": p.Root, "files": p.Files}
@@ -108,7 +117,8 @@ func c07Dump(p *c07Prog) string {
 
 // ---------------------------------------------------------------- keyword x shape x context table
 
-var c07Shapes6 = []string{"scalar", "map", "array", "null", "substitution", "import"}
+// the six value shapes of the plan plus "none": the bare key without a value
+var c07Shapes6 = []string{"scalar", "map", "array", "null", "substitution", "import", "none"}
 var c07Contexts = []string{"object", "connection", "arrowhead", "config", "class"}
 
 func c07TableProgram(kw, shape, ctx string) *c07Prog {
@@ -132,20 +142,24 @@ func c07TableProgram(kw, shape, ctx string) *c07Prog {
 	if _, ok := c07StyleSet[kw]; ok {
 		key = "style." + kw
 	}
+	kv := key + ": " + v
+	if shape == "none" {
+		kv = key
+	}
 	var b strings.Builder
 	b.WriteString("vars: {sv: 1}\n")
 	switch ctx {
 	case "object":
-		fmt.Fprintf(&b, "x: {\n  %s: %s\n}\n", key, v)
+		fmt.Fprintf(&b, "x: {\n  %s\n}\n", kv)
 	case "connection":
-		fmt.Fprintf(&b, "a -> b: {\n  %s: %s\n}\n", key, v)
+		fmt.Fprintf(&b, "a -> b: {\n  %s\n}\n", kv)
 	case "arrowhead":
-		fmt.Fprintf(&b, "a -> b: {\n  target-arrowhead: {\n    %s: %s\n  }\n}\n", key, v)
+		fmt.Fprintf(&b, "a -> b: {\n  target-arrowhead: {\n    %s\n  }\n}\n", kv)
 	case "config":
 		b.Reset()
-		fmt.Fprintf(&b, "vars: {\n  sv: 1\n  d2-config: {\n    %s: %s\n  }\n}\nx\n", key, v)
+		fmt.Fprintf(&b, "vars: {\n  sv: 1\n  d2-config: {\n    %s\n  }\n}\nx\n", kv)
 	case "class":
-		fmt.Fprintf(&b, "classes: {\n  c: {\n    %s: %s\n  }\n}\nx.class: c\na -> b: {class: c}\n", key, v)
+		fmt.Fprintf(&b, "classes: {\n  c: {\n    %s\n  }\n}\nx.class: c\na -> b: {class: c}\n", kv)
 	}
 	files["index.d2"] = b.String()
 	return &c07Prog{Root: "index.d2", Files: files, Feats: map[string]bool{"reserved": true, "kw:" + kw: true, "shape:" + shape: true, "ctx:" + ctx: true}}
@@ -289,12 +303,18 @@ func c07Gen(r *Rng, tier string, n int) []Case {
 	var out []Case
 	// 1. corpus
 	for _, p := range c07Corpus() {
+		if c07GiveUp() {
+			break
+		}
 		out = append(out, c07SearchCase(p, "corpus", c07SearchKF))
 	}
 	// 2. config cases (model vs implementation)
 	out = append(out, c07ConfigCases(r, tier, n/4)...)
 	// 3. exhaustive keyword x shape x context table
 	for _, kw := range c07TableKeywords() {
+		if c07GiveUp() {
+			break
+		}
 		for _, sh := range c07Shapes6 {
 			for _, ctx := range c07Contexts {
 				out = append(out, c07SearchCase(c07TableProgram(kw, sh, ctx), "table-"+ctx, c07SearchKF))
@@ -302,7 +322,10 @@ func c07Gen(r *Rng, tier string, n int) []Case {
 		}
 	}
 	// 4. random programs, then their token mutations
-	for len(out) < n+len(c07TableKeywords())*30 {
+	for len(out) < n+len(c07TableKeywords())*len(c07Shapes6)*len(c07Contexts) {
+		if c07GiveUp() {
+			break
+		}
 		depth := r.Range(1, 3)
 		p := c07GenProgram(r, 4, depth, r.Range(2, 9))
 		out = append(out, c07SearchCase(p, "random", c07SearchKF))
